@@ -117,5 +117,5 @@ def run(ctx):
         assumptions=['exact rational residuals; backward-error tolerance 1e-11 per row', 'with the Chang-Cooper switch on, delj comes from an independent stable evaluation (recorder) '
                      'and the residual bound is widened by the conditioning allowance of the documented double-precision formula (DESIGN 9)'])
     if not ctx.replay:
-        res = integrator_common.add_driver_traces(ctx, res, rng, dims=(1, 2, 3), prop='C02')
+        res = integrator_common.add_driver_traces(ctx, res, rng, dims=(1, 2, 3, 4, 5), prop='C02')
     return res
